@@ -22,7 +22,7 @@ def FLOORS(tier):
     q = tier == "quick"
     f = {"expression-operand": 600 if q else 20000, "is_solution_valid-checks": 20000 if q else 10 ** 6,
          "second-constraint-on-model": 300, "shared-operand-object": 400, "lam-positional": 100,
-         "between-gates:trivial-le": 30, "between-gates:round(-1)": 30, "between-gates:copy": 30, "other-constraint-kind-first": 150}
+         "between-gates:trivial-le": 30, "between-gates:round(-1)": 30, "between-gates:copy": 30, "between-gates:clear": 30, "other-constraint-kind-first": 150}
     for m in METHODS:
         f["method:" + m] = 60 if q else 2000
         g = m.replace("eq_", "")
@@ -142,7 +142,20 @@ def case(ctx, rng, idx):
             nontriv = True
         # ---- something else happens to the model between two gates; what is valid stays what it was ----------------
         if rng.random() < 0.3:
-            how = rng.choice(["trivial-le", "trivial-ge", "round(-1)", "round(0)", "round(2)", "copy"])
+            how = rng.choice(["trivial-le", "trivial-ge", "round(-1)", "round(0)", "round(2)", "copy", "clear"])
+            if how == "clear":
+                # the object is emptied and used again: nothing recorded before may judge what comes after
+                okb, _ = ctx.call("clear", H.clear, _w=w)
+                if not okb:
+                    return
+                hist.append(["clear"])
+                ctx.cat("between-gates:clear")
+                for i in range(1 << len(labs)):
+                    x = ref.assignment(i, labs, False)
+                    if not H.is_solution_valid(x):
+                        ctx.violation("clear:earlier-constraints-still-judge", "after clear() is_solution_valid(%r) is False (recorded constraints %r)" % (x, H.constraints), {"history": hist})
+                        return
+                continue
             cons0 = {k: len(v) for k, v in H.constraints.items()}
             Hb = H.copy()
             import warnings
